@@ -18,7 +18,7 @@ Trace == ndJsonDeserialize("trace.ndjson")
 VARIABLES gen, last, pc, cur, until, s3, cancelled, now, ups, quiet, out,
           l,
           shas      \* digest of every file version so far: sequence indexed by generation
-B == INSTANCE Backup
+B == INSTANCE Backup WITH MaxWait <- 900000        \* a quarter of an hour: the longest wait the validation accepts
 bvars == <<gen, last, pc, cur, until, s3, cancelled, now, ups, quiet, out>>
 vars == <<bvars, l, shas>>
 
